@@ -114,7 +114,11 @@ def run_rec(case):
         o = {"key": key}
         direct = rec.get_data_direct(key)
         stored0 = hg.snap(direct)
-        r1 = rec.get_data(key)
+        try:
+            r1 = rec.get_data(key)
+        except BaseException as ex:     # the copy itself cannot be made (fidelity of the serializer: C07's matter)
+            out["keys"].append({"key": key, "skipped": "first get_data raised " + err_name(ex)})
+            continue
         r2 = rec[key]
         o["n_mutable"] = len(hg.mutable_nodes(direct))
         o["share_read_stored"] = hg.shared_mutable(r1, direct)
@@ -163,8 +167,11 @@ def _run_cas(case, cas):
     cas.save_recording(rec)
     rid = rec.id
     out = {"steps": []}
-    first = cas.get_recording(rid)
-    base = rec_snapshot(first)
+    try:
+        first = cas.get_recording(rid)
+        base = rec_snapshot(first)
+    except BaseException as ex:         # what was saved cannot be fetched at all: not an independence question
+        return {"skipped": "first fetch raised " + err_name(ex)}
     out["share_fetch_saved"] = hg.shared_mutable(first, rec)
     # the object that was saved keeps living in the recorder's hands: changing it must not reach the store
     hg.mutate(rec.recording_data, case["script"])
@@ -292,9 +299,12 @@ def _run_play(case, cas):
 
     Op().execute()
     rec.disable_recording()
-    rid = cas.get_last_recording_id() if hasattr(cas, "get_last_recording_id") else None
-    if rid is None:
-        rid = list(cas.iter_recording_ids("Op"))[0]
+    try:
+        rid = cas.get_last_recording_id() if hasattr(cas, "get_last_recording_id") else None
+        if rid is None:
+            rid = list(cas.iter_recording_ids("Op"))[0]
+    except BaseException as ex:          # (the file cassette's lookup fetches) what was recorded cannot be fetched at all
+        return {"skipped": "first fetch raised " + err_name(ex)}
     out = {"plays": []}
 
     def fn(recording):
@@ -302,6 +312,10 @@ def _run_play(case, cas):
         Op().execute()
 
     keep = []
+    try:
+        cas.get_recording(rid)
+    except BaseException as ex:          # what was recorded cannot be fetched at all: not an independence question
+        return {"skipped": "first fetch raised " + err_name(ex)}
     for k, pre in enumerate(case["pre_steps"]):
         del log[:]
         if pre == "lookup":
@@ -313,7 +327,13 @@ def _run_play(case, cas):
             keep.append(f)
             hg.mutate(f.recording_data, script)
             hg.mutate(f.get_metadata(), script)
-        pb = rec.play(rid, fn)
+        if k == 0:
+            try:
+                pb = rec.play(rid, fn)
+            except BaseException as ex:  # the recording cannot be replayed at all: not an independence question
+                return {"skipped": "first replay raised " + err_name(ex)}
+        else:
+            pb = rec.play(rid, fn)
         p = {"pre": pre}
         p["injected"] = [[e["tag"], e["snap"]] for e in log]
         p["share_injected_recording"] = max([e["share_recording"]["n"] for e in log] or [0])
